@@ -1,15 +1,22 @@
 CHECK = dict(
     level="exploration",
-    level_text="Generated-input search over histories: a rapid state machine drives a simulated backend (devices appear, disappear, move, change or swap linked/dedicated IPs and human IDs; profiles are deleted), full / partial / failed synchronisations and lookups by all four keys against profiledb.Default, compared after every step with a reference copy of the data as of the last successful sync. The order of each background clean-up versus the next sync is owned by the harness (GOMAXPROCS(1), clean-up goroutines stay parked until the harness yields). Restart and store/load round-trips are separate generated checks.",
+    level_text="Generated-input search over histories: a rapid state machine drives a simulated backend (devices appear, disappear, move, change or swap linked/dedicated IPs and human IDs; profiles are deleted), full / partial / failed synchronisations and lookups by all four keys against profiledb.Default, compared after every step with a reference copy of the data as of the last successful sync. The order of each background clean-up versus the next sync is owned by the harness (GOMAXPROCS(1), clean-up goroutines stay parked until the harness yields). Restart: after every generated full sync a second Default is opened on the written *.pb file and all four lookups are compared with the running database and the synchronised snapshot, setting by setting. Round-trip: generated profiles/devices with every field varied go through filecachepb.Storage Store -> file -> Load and are compared through accessors and behaviour probes (IsBlocked, Check/CountResponses/Config, Contains, Authenticate). Kill points: the test binary re-executed as a child stores alternating versions in a loop and is SIGKILLed at a generated delay; the file must load as one complete version between the last finished and the last started one.",
     level_note="Backend behaviour is the input domain (a partial sync sends every profile changed since the last sync token with all its devices; keys are unique among live devices at any instant). Preemption inside a step is not controlled; the oracle is order-independent, so that only costs sensitivity.",
     technique="property-based testing (rapid): model-based state machine vs map reference, harness-owned goroutine schedule, store/load round-trip",
     assumptions=[
+        "restart/round-trip input domain is what backendpb produces: valid UTF-8 strings, auth disabled = allow-all authenticator, enabled = allow-all or bcrypt hash, full syncs carry no deleted profiles and at least one profile and one device (an all-empty cache is deliberately ignored by loadFileCache)",
+        "kill points are sampled (wall-clock delay); a SIGKILL does not lose page cache, so missing fsync / power-loss atomicity is not decided",
         "the simulated backend sends consistent snapshots (keys unique among live devices, both sides of a move in the same response)",
         "Go scheduler: with GOMAXPROCS(1) a spawned goroutine does not run before the spawning goroutine yields or blocks (async preemption after ~10 ms only reorders, it cannot invalidate the oracle)",
     ],
     units=[
         dict(name="profiledb", dir="internal/profiledb", src="C14/profiledb", runs=[
             dict(name="statemachine", run="^TestVerifC14StateMachine$", quick=3000, thorough=3000000, shards_thorough=12),
+        ]),
+        dict(name="roundtrip", dir="internal/profiledb", src="C14/roundtrip", runs=[
+            dict(name="roundtrip", run="^TestVerifC14rtRoundTrip$", quick=2000, thorough=90000, shards_thorough=6),
+            dict(name="restart", run="^TestVerifC14rtRestart$", quick=700, thorough=40000, shards_thorough=8),
+            dict(name="kill", run="^TestVerifC14rtKill$", quick=80, thorough=2400, shards_thorough=4),
         ]),
     ],
 )
